@@ -400,7 +400,8 @@ ErrorCode properties_to_oas(const Property* properties, OasisStream& out, OasisS
                     }
                     if (binary) {
                         oasis_putc(14, out);
-                    } else if (space) {
+                    } else if (space || value->count == 0) {
+                        // (an n-string cannot be empty)
                         oasis_putc(13, out);
                     } else {
                         oasis_putc(15, out);
